@@ -1,6 +1,7 @@
 package checks
 
 import (
+	"strconv"
 	"strings"
 
 	"verif/harness/core"
@@ -230,6 +231,48 @@ func runC18(c *core.Ctx, ck *Check) {
 		cands := append([]string{}, p.Strs...)
 		for k := 0; k < 30; k++ {
 			cands = append(cands, gen.Hostile(p.Strs[r.IntN(len(p.Strs))], r))
+		}
+		if j.k < 2 {
+			// directed length sweep: for EVERY number literal n of this ecosystem's sources (k = 0) / of the whole tree
+			// (k = 1) with 12 <= n <= 1100, spellings of exactly n-2 .. n+1 bytes: a length guard, buffer size or
+			// fast-path threshold measured on the untrimmed text changes acceptance of exactly these under padding
+			pkg := e.Name
+			if j.k == 1 {
+				pkg = ""
+			}
+			var short []string
+			for _, s := range p.Strs {
+				if len(s) <= 10 && strings.TrimSpace(s) == s {
+					short = append(short, s)
+				}
+			}
+			lens := map[int]bool{}
+			for _, ns := range gen.PkgNums(pkg) {
+				if n, err := strconv.Atoi(ns); err == nil && n >= 12 && n <= 1100 {
+					lens[n-2], lens[n-1], lens[n], lens[n+1] = true, true, true, true
+				}
+			}
+			var ll []int
+			for l := range lens {
+				ll = append(ll, l)
+			}
+			sortInts(ll)
+			if len(ll) > 400 {
+				r.Shuffle(len(ll), func(a, b int) { ll[a], ll[b] = ll[b], ll[a] })
+				ll = ll[:400]
+			}
+			for _, l := range ll {
+				if len(short) == 0 {
+					break
+				}
+				for _, s := range gen.OfLength(short[r.IntN(len(short))], l) {
+					if v, err, pn := e.SafeNewVersion(s); pn == nil && err == nil && v != nil {
+						cands = append(cands, s)
+						w.Count("length_sweep_accepted_spellings", 1)
+					}
+				}
+			}
+			w.Count("length_sweep_lengths", int64(len(ll)))
 		}
 		for _, s := range cands {
 			if strings.TrimSpace(s) != s {
